@@ -17,7 +17,7 @@ func checkC04(p *Prog, r *Report) {
 	c04Carried(p, r)
 	c04Expected(p, r)
 	c04Pipeline(p, r)
-	c04Transform(p, r)
+	c04Transform(p, r, "C04.R4")
 	c04LoadYear(p, r)
 	c04DayCounter(p, r)
 	c04StartOffset(p, r, "C04.R7")
@@ -258,8 +258,8 @@ func c04Pipeline(p *Prog, r *Report) {
 
 // ---------------------------------------------------------------- R4 transform / replace
 
-func c04Transform(p *Prog, r *Report) {
-	r.Rule("C04.R4", "record-update index consistency: inside the (year, day) loop nests of the normalisation routines every element of a per-year weather array is addressed [y][index] (or by the declared neighbour cursors); the documented transforms are precipitation/10·correction(day = index+1), radiation/2, wind floor 0.5; the neighbour cursors wrap to the first/last record of the adjacent year", 8)
+func c04Transform(p *Prog, r *Report, rule string) {
+	r.Rule(rule, "record-update index consistency: inside the (year, day) loop nests of the normalisation routines every element of a per-year weather array is addressed [y][index] (or by the declared neighbour cursors); the documented transforms are precipitation/10·correction(day = index+1), radiation/2, wind floor 0.5; the neighbour cursors wrap to the first/last record of the adjacent year", 8)
 	x := walked(p, "hermes.WeatherDataShared.transformWeatherData")
 	if x == nil {
 		r.Ob("transform", "-", false, "transformWeatherData not found")
